@@ -71,7 +71,24 @@ func Decode(prop string, raw json.RawMessage) (interface{}, error) {
 
 var nsUniverse = []string{"n1", "n2"}
 var nameUniverse = []string{"a", "b"}
-var confusableKeys = [][2]string{{"n-1", "a"}, {"n", "1-a"}, {"n.1", "a"}, {"n", "1.a"}}
+// confusablePairs: pairs of distinct keys that a careless key derivation maps
+// to the same slot - parts that concatenate to the same string under a
+// separator legal inside names, and names whose common 32-bit hashes collide
+// (FNV-1a, FNV-1, CRC-32, Adler-32, djb2, Java's 31-hash; found by search).
+// One pair is in play per run (GenIdx), so that both halves meet.
+var confusablePairs = [][2][2]string{
+	{{"n-1", "a"}, {"n", "1-a"}},
+	{{"n.1", "a"}, {"n", "1.a"}},
+	{{"n1", "pod-z1mjf8"}, {"n1", "pod-s9nhjx"}},
+	{{"n1", "pod-135key"}, {"n1", "pod-6bwejx"}},
+	{{"n1", "pod-mb5dzs"}, {"n1", "pod-1bmvte"}},
+	{{"n1", "pod-mdqwaj"}, {"n1", "pod-kujcds"}},
+	{{"n1", "pod-bh2337"}, {"n1", "pod-bh0u1y"}},
+	{{"n1", "pod-2wcvmr"}, {"n1", "pod-49e8mr"}},
+}
+
+// GenIdx is the index of the run being generated (set by the worker).
+var GenIdx int
 
 func pick(rng *rand.Rand, xs ...string) string { return xs[rng.Intn(len(xs))] }
 
@@ -92,6 +109,9 @@ func randLabels(rng *rand.Rand) map[string]string {
 	if rng.Intn(12) == 0 {
 		m["App"] = pick(rng, "a", "b") // a key that differs only in case
 	}
+	if rng.Intn(12) == 0 {
+		m["terminating"] = "true" // the object carries a deletionTimestamp (and a finalizer): it exists and keeps changing
+	}
 	return m
 }
 
@@ -103,7 +123,7 @@ func randKey(rng *rand.Rand, nkeys int) (string, string) {
 	if rng.Intn(12) == 0 {
 		// pairs of distinct keys whose parts concatenate to the same string under
 		// a separator that is legal inside names
-		c := confusableKeys[rng.Intn(len(confusableKeys))]
+		c := confusablePairs[GenIdx%len(confusablePairs)][rng.Intn(2)]
 		return c[0], c[1]
 	}
 	return nsUniverse[k%2], nameUniverse[(k/2)%2]
